@@ -213,5 +213,6 @@ def random_spec(seed):
         'max_n_mod': rng.choice([2, 3, 3, 4]),
         'dropna': rng.random() < 0.6,
         'output_dtype': rng.choice(['float', 'str']),
+        'verbose': rng.random() < 0.12,          # printing the tables must not change anything
     }
     return spec
